@@ -320,12 +320,41 @@ def gen_hygiene_programs(fx):
     return progs, sorted(names)
 
 
+DERIVES = ('Encode', 'Decode', 'DecodeWithMemTracking', 'CompactAs')
+
+
+def check_reexports(cx, out):
+    """W17.6: `#[derive(parity_scale_codec::X)]` on a valid definition compiles only if the library re-exports the macro in the
+    feature configuration at hand.  Read from the resolved crate root (glob imports expanded) of three configurations."""
+    cfgs = ['G', 'D'] if cx.tier == 'quick' else ['G', 'D', 'E', 'A']
+    cx.need(cfgs)
+    for cfg in cfgs:
+        fx = cx.facts(cfg)
+        ex = fx.root_exports
+        if ex is None:
+            out.fail('W17.6', 'crate root exports [%s]' % cfg, 'the fact file has no root export table (anchor missing)', 'src/lib.rs')
+            continue
+        macros = {e['name'] for e in ex if e['public'] and e['kind'] == 'Macro(Derive)'}
+        want = set(DERIVES) if cfg != 'A' else set()
+        if cfg in ('D', 'E'):
+            want.add('MaxEncodedLen')
+        for name in sorted(want):
+            out.ob('W17.6', 'derive macro %s re-exported [%s]' % (name, cfg), name in macros,
+                   'with the features of configuration %s a definition using #[derive(parity_scale_codec::%s)] is rejected: the macro is not '
+                   'exported from the crate root (exported derive macros: %s)' % (cfg, name, sorted(macros)), 'src/lib.rs')
+        if cfg == 'A':
+            out.ob('W17.6', 'no derive macros without the feature [A]', not macros, 'derive macros exported without feature derive: %s' % sorted(macros), 'src/lib.rs')
+    out.floor('W17.6', 'configurations whose crate root was read', len(cfgs), 2)
+
+
 def run(cx, out):
     out.rule('W17.5', 'generated where-clauses: instantiations whose field types support the traits compile, others are rejected (skipped fields / variants, PhantomData, compact, custom bounds)')
     out.rule('W17.4', 'hygiene: a user constant named like any item the generated code declares is still the one a discriminant refers to')
     out.rule('W17.1', 'enum index programs: verdict of the front end == independent index rule; errors located in the definition')
     out.rule('W17.2', 'variant-count, attribute-conflict, union, CompactAs-shape programs and their twins')
     out.rule('W17.3', 'type-level witnesses: DecodeFinished cannot be forged; marker traits are enforced')
+    out.rule('W17.6', 'the derive macros are reachable through the library whenever its feature `derive` is on (MaxEncodedLen: together with `max-encoded-len`)')
+    check_reexports(cx, out)
     # the artefacts come from the corpus fixture build of the current tree
     cx.need(['D'])
     from .. import facts as _fm
